@@ -111,6 +111,7 @@ type subject struct {
 	bidir    bool
 	mk       func() interface{}
 	enum     *enumer
+	height   int // B-tree streams only
 }
 type enumer struct {
 	each   func(func(int, int))
@@ -756,6 +757,12 @@ func main() {
 			emit(s, randWord(rng, s.bidir, 10+rng.Intn(30), 2*size+12), true)
 		}
 	}
+	// tall B-trees (height 3..6), full sweeps in both directions + key-directed jumps
+	deep := 30
+	if o.Thorough() {
+		deep = 150
+	}
+	heights := deepBTrees(w, rng, deep, emit)
 	_ = sort.Ints
-	w.Close(o, "one case = one container content (built by a random operation sequence; tree/B-tree shape dumped through exported fields) + a cursor command word executed on a fresh iterator + enumerable calls; bounded-exhaustive words over the basic commands for sizes 0..3, random words with NextTo/PrevTo predicates for sizes 0..12 and 20..59; non-trivial = at least 2 elements and 3 commands; distinct = distinct case terms")
+	w.Close(o, fmt.Sprintf("B-tree heights of the tall-tree stream (height:count) %v; ", heights)+"one case = one container content (built by a random operation sequence; tree/B-tree shape dumped through exported fields) + a cursor command word executed on a fresh iterator + enumerable calls; bounded-exhaustive words over the basic commands for sizes 0..3, random words with NextTo/PrevTo predicates for sizes 0..12 and 20..59; B-trees of order 3..5 with 25..160 keys (ascending/descending/shuffled insertion, 0 / 10% / 33% removals) walked by a full forward and a full backward sweep plus key-directed jumps; non-trivial = at least 2 elements and 3 commands; distinct = distinct case terms")
 }
